@@ -1285,6 +1285,10 @@ def covar_errors(params, data, errs, B, C=None):
     mask = np.where(np.isfinite(data))
 
     # calculate the proper parameter errors and copy them across.
+    # Prefer the regularised B matrix, which is what the fit itself used:
+    # the plain inverse of C is numerically singular for well sampled beams
+    if B is not None:
+        C = None
     if C is not None:
         try:
             J = lmfit_jacobian(params, mask[0], mask[1], errs=errs)
